@@ -608,10 +608,19 @@ func (f *Formatter) formatReturnStatement(stmt *ast.ReturnStatement) string {
 			prefix = "("
 			suffix = ")"
 		}
-		buf.WriteString(prefix)
 		// Print through the expression formatter: ast String() is a debug rendering
 		// that drops infix operators and re-encodes literals.
-		buf.WriteString(f.formatExpression(stmt.ReturnExpression).String())
+		expression := f.formatExpression(stmt.ReturnExpression).String()
+		// Without the parenthesis an expression like `(a) && b` would be read as `return (a)` followed by garbage
+		if suffix == "" && strings.HasPrefix(expression, "(") {
+			if prefix == " " {
+				buf.WriteString(" ")
+			}
+			prefix = "("
+			suffix = ")"
+		}
+		buf.WriteString(prefix)
+		buf.WriteString(expression)
 		buf.WriteString(suffix)
 		// several comments are separated by a white space, like the comments of an expression
 		if v := strings.TrimRight(f.formatComment(stmt.ParenthesisTrailingComments, " ", 0), " "); v != "" {
